@@ -305,3 +305,10 @@ def check(ctx):
         ctx.floor("C16.P", "raw ownership hand-overs (%s)" % cfg, n, 1)
         check_no_stack(ctx, cfg)
         c07.check_try(ctx, cfg, c07.K_TRYB, True)
+        # C15.N: the fallible conversions refuse a wrong length with Err, never with a panic (fully expanded, tree-shaped bodies)
+        from ..rules import reachable_panics
+        for k_ in (K + "try_from_vec", K + "try_from_boxed_slice"):
+            if ctx.db(cfg).get(k_) is not None:
+                at_ = ctx.analysis_inl(cfg, k_, split=True, force="*", tag="np")
+                pan = reachable_panics(at_)
+                ctx.ob("C15.N", k_, not pan, "no panicking exit in the fallible conversion: %s" % ((not pan) or pan), at=ctx.db(cfg).get(k_)["at"], cfg=cfg)
